@@ -53,6 +53,7 @@ type seqRun struct {
 	bind    map[types.Object]string  // symbolic elements bound to variables (range value)
 	loopInt map[int]map[types.Object]int64
 	nextArr int
+	convs   int          // conversions performed by per-step Add calls (each yields its own element)
 	other   types.Object // the other list (Concat)
 	why     string
 	panic   string
@@ -519,6 +520,25 @@ func (r *seqRun) exec(steps []Step) bool {
 				return false
 			case call.Fun.Name() == "Init":
 				// registration of the ego: no effect on spines
+			case call.Recv != nil && strings.HasPrefix(r.containerKey(call.Recv), "new:") && call.Fun.Name() == "Add":
+				// Add on the container being built: the model's append of a conversion made at this very step
+				k := r.containerKey(call.Recv)
+				sp, ok := r.spineOfContainer(call.Recv, -1)
+				if !ok {
+					return false
+				}
+				vals := r.cells(r.cur, sp)
+				for _, a := range unpack(call.Args) {
+					c, ok := r.cell(a)
+					if !ok {
+						return false
+					}
+					r.convs++
+					vals = append(vals, "pv("+c+")#"+itoa(r.convs))
+				}
+				n := len(vals)
+				r.cur.spine[k] = seqSlice{id: r.newArr(append(vals, "stale", "stale")), len: n, cap: n + 2}
+				r.snapshot(st.Heap)
 			case call.Recv != nil && r.v.isSelf(call.Recv) && call.Fun.Name() == "Add":
 				// delegation to the public Add of the same list: the model's append (Add itself is decided by this rule)
 				vals := r.cells(r.cur, r.cur.spine["recv"])
@@ -650,6 +670,26 @@ func (r *seqRun) loop(l *LoopRec) bool {
 		return true
 	}
 	sim := r.c.newLoopSim(l, r.intHook())
+	if sim.why != "" && l.For != nil && l.CondT != nil && l.Post == nil {
+		// a loop governed by the heap alone (`for len(spine) < n { … }`): the condition is re-read in the state every iteration leaves
+		for it := 0; it < 16; it++ {
+			r.snapshot(l.HeadEpoch)
+			e := &termEnv{hook: r.intHook()}
+			cond, ok := e.bool(l.CondT)
+			if !ok {
+				r.fail("loop condition outside the vocabulary: " + e.fail)
+				return false
+			}
+			if !cond {
+				return true
+			}
+			if !iterate() {
+				return false
+			}
+		}
+		r.fail("loop does not terminate within 16 iterations")
+		return false
+	}
 	if sim.why != "" {
 		r.fail(sim.why)
 		return false
